@@ -2,6 +2,7 @@ package c19
 
 import (
 	"fmt"
+	"io"
 	"strings"
 
 	"verif/harness/core"
@@ -25,6 +26,18 @@ import (
 // its size, every signature has a parameter tuple with at least one type or takes no argument), sigd-unparsed, sigd-silent (no
 // signature accepts ARGS but nothing is rejected).  Contract breaches (`n/a`): they are kept in the stream because the model
 // has the same faults as explicit results (SFault.nilSize, nilParams, paramIndex).
+
+// blockLambda: a px.Lambda that is nothing but its signature (describeSignatureBlock only asks `aBlock.Signature()`,
+// CallableWith `block.PType()`); the code that describes it is the real one.
+type blockLambda struct{ sig *types.CallableType }
+
+func (l *blockLambda) String() string                                        { return "lambda" }
+func (l *blockLambda) Equals(o interface{}, g px.Guard) bool                  { return l == o }
+func (l *blockLambda) ToString(b io.Writer, s px.FormatContext, g px.RDetect) { _, _ = io.WriteString(b, "lambda") }
+func (l *blockLambda) PType() px.Type                                         { return l.sig }
+func (l *blockLambda) Call(c px.Context, block px.Lambda, args ...px.Value) px.Value { return px.Undef }
+func (l *blockLambda) Parameters() []px.Parameter                             { return nil }
+func (l *blockLambda) Signature() px.Signature                                { return l.sig }
 
 func parseItem(line string) (ditem, bool) {
 	var d ditem
@@ -105,7 +118,7 @@ func parseSignaturesText(text string) (string, string) {
 
 func execSigd(c px.Context, args []sx.Sexp) core.Result {
 	bad := func(why string) core.Result { return core.Result{Out: "bad-op", Pred: "FAIL harness-bad-op sigd " + why} }
-	if len(args) != 2 || !args[0].IsList {
+	if (len(args) != 2 && len(args) != 3) || !args[0].IsList {
 		return bad("shape")
 	}
 	if sexpHasAlias(args[0]) || sexpHasAlias(args[1]) {
@@ -191,8 +204,22 @@ func execSigd(c px.Context, args []sx.Sexp) core.Result {
 		breach = true // not the type of an argument list: aSize stays nil
 	}
 	tags = append(tags, fmt.Sprintf("nsig:%d", len(sigs)), "args:"+a.Ty.K)
+	// the block handed to the call: its signature as a (callable P R B) term, or n
+	var block px.Lambda
+	if len(args) == 3 && (args[2].IsList || args[2].Atom != "n") {
+		var bt px.Type
+		var st string
+		if f := lat.Safely(func() { bt, st = buildCallable(env, args[2], &tags) }); f != nil || st == "no" || st == "bad-op" {
+			return bad("block " + st + fmt.Sprint(f))
+		}
+		if st != "" {
+			return core.Result{Out: "unbuildable", Pred: "n/a", Tags: tags}
+		}
+		block = &blockLambda{bt.(*types.CallableType)}
+		tags = append(tags, "sblock:given")
+	}
 	var text string
-	if f := lat.Safely(func() { text = px.DescribeSignatures(sigs, a.C, nil) }); f != nil {
+	if f := lat.Safely(func() { text = px.DescribeSignatures(sigs, a.C, block) }); f != nil {
 		pred := "FAIL sigd-fault " + oneLineS(fmt.Sprint(f))
 		if breach {
 			pred = "n/a"
@@ -208,7 +235,7 @@ func execSigd(c px.Context, args []sx.Sexp) core.Result {
 	// no signature accepts the argument list, yet nothing is rejected
 	// (for the detailed type of an argument list: a Tuple without an explicit size — of an Array type or a Tuple with a size the
 	// describer only looks at the declared / minimal number of arguments)
-	if !breach && len(sigs) > 0 && a.Ty.K == "tup" && !a.Ty.HasSize {
+	if !breach && block == nil && len(sigs) > 0 && a.Ty.K == "tup" && !a.Ty.HasSize {
 		accepted := false
 		for i := range sigs {
 			ok, f := lat.SafeAsg(tuples[i], a.C)
@@ -332,6 +359,37 @@ func genSigd(g *core.G, lg *lat.Gen) {
 		}
 		emit(sigs, a)
 	}
+	// calls WITH a block: against signatures without / with a required / with an optional block type (Callable[1, 1]); the block's
+	// signature fits, has other parameters, declares a return type, has a block of its own
+	b11 := lat.TupSz(nil, 1, 1).String()
+	blockSigs := []string{"(callable " + b11 + " n n)", "(callable " + lat.Tup([]lat.Ty{str}).String() + " n n)", "(callable " + lat.TupSz(nil, 2, 2).String() + " n n)",
+		"(callable " + b11 + " " + integer.String() + " n)", "(callable n n n)", "(callable " + b11 + " n (r " + b11 + " n))", "(callable " + lat.TupSz(nil, 0, 3).String() + " n n)"}
+	emitB := func(sigs []sigT, a lat.Ty, b string) {
+		ss := make([]string, len(sigs))
+		for i, s := range sigs {
+			ss[i] = s.String()
+		}
+		g.Emit("sigd (" + strings.Join(ss, " ") + ") " + a.String() + " " + b)
+	}
+	for i, s := range pool {
+		for k, a := range argLists {
+			for m, b := range blockSigs {
+				if g.Thorough() || (i+k+m)%4 == 0 {
+					emitB([]sigT{s}, a, b)
+				}
+			}
+		}
+		for j, t := range pool {
+			if i != j && (s.blk != "n" || t.blk != "n" || (i+j)%5 == 0) {
+				for k, a := range argLists {
+					if (i+j+k)%6 == 0 || g.Thorough() {
+						emitB([]sigT{s, t}, a, blockSigs[(i+j+k)%len(blockSigs)])
+					}
+				}
+			}
+		}
+	}
+
 	// contract breaches: the faults the model makes explicit (argument type that is no Tuple/Array, a signature without a parameter
 	// tuple, a parameter tuple that takes arguments but declares no type) and no signature at all
 	for _, line := range []string{
